@@ -195,20 +195,16 @@ public:
               this->deallocate();
               exchange_memory(*this, img);
           } else {
-              // cannot propagate the allocator and cannot adopt the memory
-              if (img._memory)
-              {
-                  allocate_and_copy(img.dimensions(), img._view);
-                  destruct_pixels(img._view);
-                  img.deallocate();
-                  img._view = image::view_t{};
-              }
-              else
-              {
-                  destruct_pixels(this->_view);
-                  this->deallocate();
-                  this->_view = view_t{};
-              }
+              // cannot propagate the allocator and cannot adopt the memory:
+              // release our own storage, then copy the pixels into storage from our allocator
+              destruct_pixels(this->_view);
+              this->_view = view_t{};
+              this->deallocate();
+              this->_align_in_bytes = img._align_in_bytes;
+              allocate_and_copy(img.dimensions(), img._view);
+              destruct_pixels(img._view);
+              img._view = image::view_t{};
+              img.deallocate();
           }
       }
 
@@ -401,6 +397,9 @@ private:
     {
         if (_memory && _allocated_bytes > 0)
             _alloc.deallocate(_memory, _allocated_bytes);
+        // the image no longer owns storage: a later destructor or recreate must not see the released block
+        _memory = nullptr;
+        _allocated_bytes = 0;
     }
 
     std::size_t is_planar_impl(
